@@ -60,14 +60,16 @@ PLANS["C04"] = {
 PLANS["C05"] = {
     "apalache": True,
     "props": ["C05"], "ops": ["cuu", "cud", "cuf", "cub", "cnl", "cpl", "cha", "vpa", "cup", "bs", "cr"],
-    "mc": [mc("C05", geoms("GQuick", "GThorough"), ports({"api": 1, "chars": 2, "bytes": 5}, ALLP))],
+    "mc": [mc("Psweep", geoms("GLong", "GLong"), ports({"api": 1, "chars": 3}, {"api": 1, "chars": 1}), invariants=["WellFormedInv", "Emit"]),
+           mc("C05", geoms("GQuick", "GThorough"), ports({"api": 1, "chars": 2, "bytes": 5}, ALLP))],
     "gen": [gen("star", 12, 300, focus="C05", steps=40, every=6, per=24), walk("C05", 160, 4000), walk("C05", 80, 2000, port="chars"), walk("C05", 16, 400, geom="large", steps=60)],
     "rule": "MC: every movement operation x every parameter in {absent,0,1,..,size+2,9999} (both independently for CUP) from "
             "every cursor position incl. pending wrap x every region x DECOM on/off, on each geometry; TV: seeded random walks",
 }
 PLANS["C06"] = {
     "props": ["C06"], "ops": ["ind", "lf", "ri", "il", "dl", "decstbm"],
-    "mc": [mcseq("C06seq", {"quick": 3, "thorough": 4}, ports({"api": 1, "chars": 3}, {"api": 1, "chars": 3}), disp=True),
+    "mc": [mc("Psweep", geoms("GLong", "GLong"), ports({"api": 1, "chars": 3}, {"api": 1, "chars": 1}), invariants=["WellFormedInv", "Emit"]),
+           mcseq("C06seq", {"quick": 3, "thorough": 4}, ports({"api": 1, "chars": 3}, {"api": 1, "chars": 3}), disp=True),
            mc("C06", geoms("GRowsQuick", "GRows"), ports({"api": 1, "chars": 3}, ALLP), disp=True)],
     "gen": [gen("star", 12, 300, focus="C06", steps=40, every=6, per=24), walk("C06", 160, 4000), walk("C06", 80, 2000, port="chars"), walk("C06", 8, 200, geom="large", steps=60)],
     "rule": "MC: IND/LF/RI, IL/DL with counts {absent,0,..,L+2,9999}, DECSTBM with every (top,bottom) pair, from grids whose every "
@@ -76,7 +78,8 @@ PLANS["C06"] = {
 }
 PLANS["C07"] = {
     "props": ["C07"], "ops": ["ed", "el", "ech"],
-    "mc": [mc("C07", geoms("GRowsQuick", "GRows"), ports({"api": 1, "chars": 3}, ALLP), disp=True)],
+    "mc": [mc("Psweep", geoms("GLong", "GLong"), ports({"api": 1, "chars": 3}, {"api": 1, "chars": 1}), invariants=["WellFormedInv", "Emit"]),
+           mc("C07", geoms("GRowsQuick", "GRows"), ports({"api": 1, "chars": 3}, ALLP), disp=True)],
     "gen": [gen("star", 12, 300, focus="C07", steps=40, every=6, per=24), walk("C07", 160, 4000), walk("C07", 80, 2000, port="chars")],
     "rule": "MC: ED/EL selectors {absent,0..5,9999}, ECH counts {absent,0,..,C+2,9999} from marker-filled coloured grids, cursor at "
             "representative columns incl. pending wrap, with/without region and DECOM, coloured current rendition",
@@ -106,7 +109,8 @@ PLANS["C12"] = {
 }
 PLANS["C13"] = {
     "props": ["C13"], "ops": ["ich", "dch"],
-    "mc": [mcseq("C13seq", {"quick": 3, "thorough": 4}, ports({"api": 1, "chars": 3}, {"api": 1, "chars": 3}), disp=True),
+    "mc": [mc("Psweep", geoms("GLong", "GLong"), ports({"api": 1, "chars": 3}, {"api": 1, "chars": 1}), invariants=["WellFormedInv", "Emit"]),
+           mcseq("C13seq", {"quick": 3, "thorough": 4}, ports({"api": 1, "chars": 3}, {"api": 1, "chars": 3}), disp=True),
            mc("C13", geoms("GCols", "GCols"), ports({"api": 1, "chars": 2}, ALLP), disp=True)],
     "gen": [gen("star", 12, 300, focus="C13", steps=40, every=6, per=24), walk("C13", 160, 4000), walk("C13", 80, 2000, port="chars"), walk("C16", 80, 2000)],
     "rule": "MC: ICH/DCH counts {absent,0,..,C+2,9999} on rows of width 1..6 with distinct coloured markers (filled and sparse), cursor "
@@ -176,7 +180,8 @@ PLANS["C17"] = {
 PLANS["C09"] = {
     "apalache": True,
     "props": ["C09"], "ops": [],
-    "mc": [{"module": "MCReach", "model": "reach", "kind": "screen", "view": "View", "constraint": "StackBound",
+    "mc": [mc("Psweep", geoms("GLong", "GLong"), ports({"api": 1, "chars": 3}, {"api": 1, "chars": 1}), invariants=["WellFormedInv", "Emit"]),
+           {"module": "MCReach", "model": "reach", "kind": "screen", "view": "View", "constraint": "StackBound",
             "constants": {"MaxC": {"quick": 2, "thorough": 3}, "MaxL": {"quick": 2, "thorough": 2}, "Depth": 30},
             "invariants": ["WellFormedInv", "OriginConfined", "Emit"], "ports": ports({"api": 2}, {"api": 2, "chars": 9}), "workers": 8},
            terminal_sim(8, 300),
@@ -193,7 +198,8 @@ PLANS["C09"] = {
 }
 PLANS["C01"] = {
     "props": ["C01"], "ops": [],
-    "mc": [mcseq("C13seq", {"quick": 3, "thorough": 4}, ports({"api": 3}, {"api": 1}), disp=True), mcseq("C16seq", {"quick": 3, "thorough": 3}, ports({"api": 5}, {"api": 1}), disp=True), mcseq("C14seq", {"quick": 3, "thorough": 3}, ports({"api": 3}, {"api": 1})),
+    "mc": [mc("Psweep", geoms("GLong", "GLong"), ports({"api": 1, "chars": 3}, {"api": 1, "chars": 1}), invariants=["WellFormedInv", "Emit"]),
+           mcseq("C13seq", {"quick": 3, "thorough": 4}, ports({"api": 3}, {"api": 1}), disp=True), mcseq("C16seq", {"quick": 3, "thorough": 3}, ports({"api": 5}, {"api": 1}), disp=True), mcseq("C14seq", {"quick": 3, "thorough": 3}, ports({"api": 3}, {"api": 1})),
            terminal_sim(8, 300),
            mc("C05", geoms("GTiny", "GQuick"), ports({"api": 3, "chars": 3}, {"api": 1, "chars": 1})),
            mc("C04", geoms("GTiny", "GQuick"), ports({"api": 5, "chars": 11}, {"api": 1, "chars": 2}), disp=True),
